@@ -64,6 +64,7 @@ type Exec struct {
 	verbose  bool
 	witness  map[string]ast.Expr
 	errGlobals map[string]int
+	typeByID map[int]types.Type
 }
 
 func (x *Exec) note(f string, a ...any) { x.notes[fmt.Sprintf(f, a...)] = true }
@@ -97,6 +98,10 @@ func (x *Exec) typeTag(t types.Type) *Term {
 	if !ok {
 		id = len(x.typeIDs) + 1
 		x.typeIDs[k] = id
+		if x.typeByID == nil {
+			x.typeByID = map[int]types.Type{}
+		}
+		x.typeByID[id] = t
 	}
 	return mkBV(int64(id), 32)
 }
@@ -432,7 +437,7 @@ func (x *Exec) localResolver(st *State, fr *Frame, at *ssa.BasicBlock) func(stri
 				if !ok {
 					break
 				}
-				if ph.Comment == name {
+				if ph.Comment == name || strings.ReplaceAll(ph.Comment, ".", "_") == name {
 					if v, ok := fr.vals[ph]; ok {
 						return v, true
 					}
@@ -545,7 +550,12 @@ func (x *Exec) VerifyFunc(fn *ssa.Function, c *FuncContract) (err error) {
 	}
 	for _, p := range fn.FreeVars {
 		bind(p.Name(), p.Type(), p)
-		st.assume(Neq(fr.vals[p].t(), mkBV(0, 32)))
+		if _, isPtr := p.Type().Underlying().(*types.Pointer); isPtr {
+			st.assume(Neq(fr.vals[p].t(), mkBV(0, 32)))
+			// captured by reference: in contracts the name denotes the variable's value at entry
+			vars[p.Name()] = st.load(x, fr.vals[p])
+			st.lets[p.Name()] = vars[p.Name()]
+		}
 	}
 	env := &Env{x: x, st: st, vars: vars, pkg: fn.Pkg.Pkg}
 	for _, l := range c.lets {
@@ -770,6 +780,16 @@ func (x *Exec) frameCheck(st *State, fr *Frame, env *Env, c *FuncContract, pos t
 		return
 	}
 	perm := x.modTargets(env, c)
+	// variables captured by reference are the closure's own locals: writing them is not a frame violation
+	for _, fv := range fr.fn.FreeVars {
+		if _, isPtr := fv.Type().Underlying().(*types.Pointer); isPtr {
+			pv := st.entry.stack[0].vals[fv]
+			li := resolveLoc(pv)
+			for k := li.lo; k < li.hi; k++ {
+				perm = append(perm, permitted{key: li.key(k), base: pv.l[0]})
+			}
+		}
+	}
 	var goals []*Term
 	r := mkVar("frame!r", RefS)
 	jj := mkVar("frame!j", I64)
@@ -824,7 +844,7 @@ func (x *Exec) VerifyLemma(l *Lemma) error {
 	o := &Oblig{name: name, kind: "lemma", fn: l.pkg, desc: l.text, props: l.props, clause: l.text}
 	o.paths = 1
 	if nt := Not(t); nt != False {
-		o.disj = []*Term{nt}
+		o.disj = []*Term{skolemize(nt, true)}
 	}
 	x.obligs[name] = o
 	x.oblOrder = append(x.oblOrder, name)
